@@ -37,12 +37,14 @@
 //
 // Output of ms/raw:  <true|false|panic:class> sz=<Size()> nt=<NumTrueBitsBefore(n)>
 //
+// (K = 0 / K > n keys and nil constituent keys: fixed in /repo e5e21f6a46, kept as regressions.)
+//
 // Oracle (independent of the Lean model, evaluates the property statement): marked positions are
 // counted from the raw Elems bytes; every marked position j-th in order must have a j-th signature
 // that the real single-key verify accepts under that position's key.
-//   - any panic                                          → VIOL:verify-panic[-nilkey]
-//   - result true although (#marked < k or some marked position lacks a valid signature)
-//     → VIOL:accepts-invalid   (VIOL:hugek-accept when K ≥ 2^63)
+//   - any panic                                          → VIOL:verify-panic
+//   - result true although (k = 0 or k > n, #marked < k, or some marked position lacks a valid
+//     signature by a non-nil key)                        → VIOL:accepts-invalid
 //   - result false although the shape is well-formed for n, every signature is used
 //     (len(sigs) = #marked), #marked ≥ k and all are valid → VIOL:rejects-valid
 //     (with unused trailing signatures or a malformed shape the statement is silent: only the
@@ -341,8 +343,8 @@ func judge(res string, k uint64, ks []*keyT, msg []byte, dec *multisig.Multisign
 		}
 	}
 	if strings.HasPrefix(res, "panic:") {
-		if res == "panic:nilkey" && nilMarked {
-			return "VIOL:verify-panic-nilkey VerifyBytes panicked (" + res + ") with a nil constituent key at a marked position"
+		if nilMarked {
+			return "VIOL:verify-panic VerifyBytes panicked (" + res + ") with a nil constituent key at a marked position"
 		}
 		return "VIOL:verify-panic VerifyBytes panicked (" + res + ")"
 	}
@@ -364,13 +366,17 @@ func judge(res string, k uint64, ks []*keyT, msg []byte, dec *multisig.Multisign
 			break
 		}
 	}
+	// a k-of-n key has 1 <= k <= n; anything else (decodable: the constructor is bypassed) is
+	// not a key the statement lets verify anything — K = 0 would accept an empty
+	// multisignature for EVERY message
+	properKey := k >= 1 && k <= uint64(n)
 	enough := uint64(len(marked)) >= k
-	expected := enough && allValid
+	expected := properKey && enough && allValid
 	if res == "true" && !expected {
-		if allValid && k >= 1<<63 {
-			return fmt.Sprintf("VIOL:hugek-accept accepted although %d marked < k=%d", len(marked), k)
-		}
-		if allValid {
+		switch {
+		case !properKey:
+			why = fmt.Sprintf("k=%d is not a threshold for %d keys", k, n)
+		case allValid:
 			why = fmt.Sprintf("%d marked < k=%d", len(marked), k)
 		}
 		return "VIOL:accepts-invalid accepted although " + why
@@ -605,7 +611,7 @@ func execBuild(t []string) (string, string) {
 				valid++
 			}
 		}
-		exp := uint64(len(latest)) >= k && valid == len(latest)
+		exp := k >= 1 && uint64(len(latest)) >= k && valid == len(latest)
 		if len(dec.Sigs) != len(latest) {
 			or = fmt.Sprintf("VIOL:build-shape %d signers but %d signatures stored", len(latest), len(dec.Sigs))
 		} else if exp != (res == "true") {
